@@ -207,3 +207,20 @@ Proof.
   { apply mem_In, in_or_app. right. left. reflexivity. }
   rewrite H. cbn [bind_hs]. discriminate.
 Qed.
+
+(* ---------- settled states ---------- *)
+(* [settled] says exactly that no task can move its stream into the channel: the only reason a stream with
+   a parsed preamble is not (yet) in the channel is that the channel is full *)
+Theorem settled_iff_no_send_enabled cap o :
+  settled cap o = true <-> forall id, In id (ready (hs o)) -> step cap (hs o) (TaskSend id) = None.
+Proof.
+  unfold settled. split.
+  - intros H id Hin. cbn [step]. destruct (ready (hs o)) as [|x r] eqn:R; [destruct Hin|].
+    apply Nat.leb_le in H. assert (E : (length (chan (hs o)) <? cap)%nat = false) by (apply Nat.ltb_ge; lia).
+    rewrite E, Bool.andb_false_r. reflexivity.
+  - intros H. destruct (ready (hs o)) as [|x r] eqn:R; [reflexivity|].
+    specialize (H x (or_introl eq_refl)). cbn [step] in H. rewrite R in H. cbn [mem] in H.
+    rewrite N.eqb_refl in H. cbn [orb andb] in H.
+    destruct (length (chan (hs o)) <? cap)%nat eqn:E; [discriminate|].
+    apply Nat.ltb_ge in E. apply Nat.leb_le. exact E.
+Qed.
